@@ -15,7 +15,9 @@ static uint8_t img[8 + 48 + 8];
 // IMAGE: run the real copy_flattened_data into a guarded 48-byte destination and read everything back from that image
 // (dear: symbolic-length copies); otherwise use what C10 proves about the copy (image byte at section offset + k is byte k of the
 // section buffer, for k < buffer size): the slot must lie inside the buffer of .addrtab and hold the target.
-template<uint32_t N_REL, bool IMAGE>
+// IMG_CASE (image variant only): 0 none; otherwise 1 + 2*table_last + far, i.e. the layout case is fixed per instantiation so that
+// every offset and size the copy uses can be re-stated as a constant (a copy with symbolic lengths does not fit the memory cap).
+template<uint32_t N_REL, bool IMAGE, uint32_t IMG_CASE = 0>
 static void addrtab_check_n(int mode) {
   CodeHolder* c = make_holder(Arch::kX64, 3);
   bool table_last = nondet_bool();
@@ -26,7 +28,7 @@ static void addrtab_check_n(int mode) {
   }
   else V_ASSUME(!table_last);
   constexpr uint32_t n_rel = N_REL;
-  bool bad_opcode = n_rel == 1 && nondet_bool();  // a site that is not jmp/call rel32 (single-site case only)
+  bool bad_opcode = n_rel == 1 && !IMAGE && nondet_bool();  // a site that is not jmp/call rel32 (single-site case only)
   uint64_t p1 = nondet_u64(), p2 = nondet_u64();
   uint32_t n_ent = (n_rel == 2 && p2 != p1) ? 2 : 1;
 
@@ -85,6 +87,17 @@ static void addrtab_check_n(int mode) {
 
   const uint8_t* im = sbuf[0];  // .text is at image offset 0
   if (IMAGE) {
+    constexpr bool tl = ((IMG_CASE - 1) >> 1) & 1, far_target = (IMG_CASE - 1) & 1;
+    V_ASSUME(table_last == tl && (d1 != int64_t(int32_t(d1))) == far_target);
+    V_CONCRETIZE(by_order()[1], tl ? user : tab, "second section in order");
+    V_CONCRETIZE(by_order()[2], tl ? tab : user, "third section in order");
+    V_CONCRETIZE(text->_offset, uint64_t(0), "text at offset 0");
+    V_CONCRETIZE(text->_virtual_size, uint64_t(16), "text extends to the next section");
+    V_CONCRETIZE(user->_offset, uint64_t(tl ? 16 : 32), "user section offset (16-byte aligned)");
+    V_CONCRETIZE(tab->_offset, uint64_t(tl ? 24 : 16), "address table offset (8-byte aligned)");
+    V_CONCRETIZE(user->_virtual_size, uint64_t(tl ? 8 : 0), "user section virtual size");
+    if (tl) { V_CONCRETIZE(tab->_virtual_size, uint64_t(far_target ? 8 : 0), "address table trimmed to the slots in use"); V_CONCRETIZE(tab->_buffer._size, size_t(far_target ? 8 : 0), "address table buffer holds the slots in use"); }
+    else V_CONCRETIZE(tab->_virtual_size, uint64_t(16), "address table keeps its reserved size");
     memset(img, 0xCD, sizeof(img));
     Error cerr = c->copy_flattened_data(img + 8, 48, CopySectionFlags::kPadSectionBuffer);
     V_ASSERT(cerr == Error::kOk, "relocated code fits a destination of the estimated size");
@@ -133,7 +146,13 @@ static void addrtab_check_n(int mode) {
   else V_ASSERT(summary.code_size_reduction == 0, "address table not last: nothing can be trimmed");
   size_t after = c->code_size();
   V_ASSERT(after <= estimated && after == estimated - summary.code_size_reduction, "size after relocation is the estimate minus the reported reduction");
-  if (via[0] || via[1]) V_WITNESS("addrtab-slot-used"); else if (mode == 0) V_WITNESS("addrtab-rel32-only");
+  if (IMAGE) {  // one witness per layout case (each instantiation reaches exactly its own)
+    if (IMG_CASE == 1) V_WITNESS("image-table-not-last-near-target");
+    if (IMG_CASE == 2) V_WITNESS("image-table-not-last-far-target");
+    if (IMG_CASE == 3) V_WITNESS("image-table-last-near-target");
+    if (IMG_CASE == 4) V_WITNESS("image-table-last-far-target");
+  }
+  else if (via[0] || via[1]) V_WITNESS("addrtab-slot-used"); else if (mode == 0) V_WITNESS("addrtab-rel32-only");
 }
 
 HARNESS h_addrtab_one() { addrtab_check_n<1, false>(0); }
@@ -141,5 +160,14 @@ HARNESS h_addrtab_two() { addrtab_check_n<2, false>(0); }
 HARNESS h_addrtab_one_kf_D5() { addrtab_check_n<1, false>(1); }
 HARNESS h_addrtab_two_kf_D5() { addrtab_check_n<2, false>(1); }
 // one call site, installed image read back from the real copy_flattened_data
-HARNESS h_addrtab_image() { addrtab_check_n<1, true>(0); }
-HARNESS h_addrtab_image_kf_D5() { addrtab_check_n<1, true>(1); }
+HARNESS h_addrtab_image() {
+  switch (nondet_u8() & 3) {
+#if !KF_D5
+    case 0: addrtab_check_n<1, true, 1>(0); break;   // table not last, near target
+    case 1: addrtab_check_n<1, true, 2>(0); break;   // table not last, far target (the region of D5: covered by the _kf_D5 companion while the finding is open)
+#endif
+    case 2: addrtab_check_n<1, true, 3>(0); break;   // table last, near target
+    default: addrtab_check_n<1, true, 4>(0); break;  // table last, far target
+  }
+}
+HARNESS h_addrtab_image_kf_D5() { if (nondet_bool()) addrtab_check_n<1, true, 2>(1); else addrtab_check_n<1, true, 1>(1); }
